@@ -47,12 +47,14 @@ func runBin(c *Ctx, bin string, env []string, limit time.Duration, stdin string,
 	defer cancel()
 	cmd := exec.CommandContext(ctx, bin, args...)
 	cmd.Stdin = bytes.NewBufferString(stdin)
-	var so, se bytes.Buffer
-	cmd.Stdout, cmd.Stderr = &so, &se
+	// bounded capture: a command that spins while printing must not take the worker down with it
+	so, se := &headTail{head: 256 << 20, tail: 1 << 20}, &headTail{head: 4 << 20, tail: 1 << 20}
+	cmd.Stdout, cmd.Stderr = so, se
 	cmd.Dir = c.Tmp
 	cmd.Env = append(append(os.Environ(), "GOTRACEBACK=single"), env...)
 	err := cmd.Run()
 	r := cliRes{Stdout: so.String(), Stderr: se.String()}
+	seb := []byte(r.Stderr)
 	if ps := cmd.ProcessState; ps != nil {
 		r.CPU = ps.UserTime().Seconds() + ps.SystemTime().Seconds()
 	}
@@ -69,7 +71,7 @@ func runBin(c *Ctx, bin string, env []string, limit time.Duration, stdin string,
 			r.Exit = -2
 		}
 	}
-	r.Panic = bytes.Contains(se.Bytes(), []byte("panic:")) || bytes.Contains(se.Bytes(), []byte("fatal error:")) || bytes.Contains(se.Bytes(), []byte("goroutine 1 ["))
+	r.Panic = bytes.Contains(seb, []byte("panic:")) || bytes.Contains(seb, []byte("fatal error:")) || bytes.Contains(seb, []byte("goroutine 1 ["))
 	return r
 }
 
@@ -170,4 +172,42 @@ func runCLIOut(c *Ctx, r *rand.Rand, stdin string, args ...string) (cliRes, stri
 		res.Stdout = string(b)
 	}
 	return res, "file"
+}
+
+// headTail keeps the first head bytes and the last tail bytes written to it and counts the rest.
+type headTail struct {
+	head, tail int
+	h, t       []byte
+	total      int64
+}
+
+func (w *headTail) Write(p []byte) (int, error) {
+	n := len(p)
+	w.total += int64(n)
+	if len(w.h) < w.head {
+		k := w.head - len(w.h)
+		if k > len(p) {
+			k = len(p)
+		}
+		w.h = append(w.h, p[:k]...)
+		p = p[k:]
+	}
+	if len(p) > 0 {
+		w.t = append(w.t, p...)
+		if len(w.t) > 2*w.tail {
+			w.t = append([]byte(nil), w.t[len(w.t)-w.tail:]...)
+		}
+	}
+	return n, nil
+}
+
+func (w *headTail) String() string {
+	t := w.t
+	if len(t) > w.tail {
+		t = t[len(t)-w.tail:]
+	}
+	if dropped := w.total - int64(len(w.h)) - int64(len(t)); dropped > 0 {
+		return string(w.h) + fmt.Sprintf("\n[... %d bytes not kept ...]\n", dropped) + string(t)
+	}
+	return string(w.h) + string(t)
 }
